@@ -39,6 +39,7 @@ Definition builtin_full (call : callback) (b : builtin) : list value -> store ->
   | B_chunk => pure_bi BuiltinsList.bi_chunk
   | B_convert => pure_bi BuiltinsText.bi_convert
   | B_round => pure_bi BuiltinsText.bi_round
+  | B_random => pure_bi BuiltinsText.bi_random
   | B_to_number => pure_bi BuiltinsText.bi_to_number
   | B_to_string => pure_bi BuiltinsText.bi_to_string
   | B_join => pure_bi BuiltinsText.bi_join_full
